@@ -43,6 +43,12 @@ def bytes_for(rng, L, mods):
         return ((hi << 256) | v).to_bytes(L, 'big'), 'limbs'
     if k == 7:
         return bytes([0] * (L - 1) + [rng.randrange(256)]), 'small'
+    if k == 8:
+        # powers of two (in particular at limb boundaries 2^64k) and their neighbours, sums of two powers
+        e = rng.choice([64 * rng.randrange(0, (8 * L + 63) // 64), rng.randrange(8 * L)])
+        v = (1 << e) + rng.choice([-1, 0, 0, 1, rng.randrange(1 << 16), 1 << rng.randrange(8 * L)])
+        if 0 <= v < top:
+            return v.to_bytes(L, 'big'), 'pow2'
     return rng.randbytes(L), 'random'
 
 
@@ -128,7 +134,18 @@ def run(ctx, spec):
                 if rng.random() < 0.5:
                     d = ''.join(rng.choice('0123456789') for _ in range(rng.randrange(1, 60)))
                     pos = rng.randrange(len(d) + 1)
-                    s = d[:pos] + rng.choice(['a', ' ', '-', '+', '.', 'x', '/', ':', '\x00', 'é', '₁']) + d[pos:]
+                    bad = rng.choice(['a', ' ', '-', '+', '.', 'x', '/', ':', '\x00', 'é', '₁'])
+                    if rng.random() < 0.5:
+                        # any non-ASCII, non-digit character; half of them chosen so that the low byte of the code point is '0'..'9'
+                        while True:
+                            cp = rng.randrange(0x80, 0x2FFFF)
+                            if rng.random() < 0.5:
+                                cp = (cp & ~0xFF) | rng.randrange(0x30, 0x3A)
+                            ch = chr(cp)
+                            if cp >= 0x80 and not (0xD800 <= cp <= 0xDFFF) and not ch.isdigit() and not ch.isdecimal() and not ch.isnumeric():
+                                bad = ch
+                                break
+                    s = d[:pos] + bad + d[pos:]
                 add('_ %s.from_str %s' % (f, s.encode().hex()), '%s.from_str/bad' % f, 'err', ('str', f, s))
             else:
                 s = rng.choice(STRINGS_NONASCII_DIGITS + [''])
